@@ -1278,9 +1278,28 @@ func (c Clause) String() string {
 		premises.WriteString(p.String())
 	}
 	if c.Transform == nil {
+		if endsWithNameConstant(c.Premises[len(c.Premises)-1]) {
+			// "X = /a." would be read as the name "/a." ('.' is a name character).
+			return fmt.Sprintf("%s :- %s .", headStr, premises.String())
+		}
 		return fmt.Sprintf("%s :- %s.", headStr, premises.String())
 	}
 	return fmt.Sprintf("%s :- %s |> %s.", headStr, premises.String(), c.Transform.String())
+}
+
+// endsWithNameConstant tells whether the printed premise ends with a name constant.
+func endsWithNameConstant(premise Term) bool {
+	var last BaseTerm
+	switch p := premise.(type) {
+	case Eq:
+		last = p.Right
+	case Ineq:
+		last = p.Right
+	default:
+		return false
+	}
+	c, ok := last.(Constant)
+	return ok && c.Type == NameType
 }
 
 func (t Transform) String() string {
